@@ -700,6 +700,134 @@ func unicodeEscapeRule(c *Ctx, rule string) {
 			}
 		}
 	}
+	// explicit range checks of the code point: the values sent to an error must not include a valid
+	// code point (0..0xD7FF, 0xE000..0x10FFFF)
+	validHit := func(lo, hi int64) (int64, bool) { // a valid code point in [lo,hi]
+		for _, iv := range [][2]int64{{0, 0xD7FF}, {0xE000, 0x10FFFF}} {
+			a, b := lo, hi
+			if a < iv[0] {
+				a = iv[0]
+			}
+			if b > iv[1] {
+				b = iv[1]
+			}
+			if a <= b {
+				return a, true
+			}
+		}
+		return 0, false
+	}
+	for _, f := range moduleCallees(fn, 1, map[*ssa.Function]bool{}) {
+		for _, b := range f.Blocks {
+			iff, ok := b.Instrs[len(b.Instrs)-1].(*ssa.If)
+			if !ok {
+				continue
+			}
+			bo, ok := iff.Cond.(*ssa.BinOp)
+			if !ok || !derived[bo.X] {
+				continue
+			}
+			k, isC := constInt(bo.Y)
+			if !isC {
+				continue
+			}
+			const top = int64(1) << 40
+			// what dominating range checks of the code point already say at this block
+			dlo, dhi := int64(0), top
+			for d := b; d != nil && d.Idom() != nil; d = d.Idom() {
+				p := d.Idom()
+				pif, ok := p.Instrs[len(p.Instrs)-1].(*ssa.If)
+				if !ok || len(d.Preds) != 1 || p.Succs[0] == p.Succs[1] {
+					continue
+				}
+				pb, ok := pif.Cond.(*ssa.BinOp)
+				if !ok || !derived[pb.X] {
+					continue
+				}
+				pk, isC := constInt(pb.Y)
+				if !isC {
+					continue
+				}
+				onTrue := p.Succs[0] == d
+				op := pb.Op
+				if !onTrue {
+					switch op {
+					case token.GEQ:
+						op = token.LSS
+					case token.GTR:
+						op = token.LEQ
+					case token.LEQ:
+						op = token.GTR
+					case token.LSS:
+						op = token.GEQ
+					default:
+						continue
+					}
+				}
+				switch op {
+				case token.GEQ:
+					if pk > dlo {
+						dlo = pk
+					}
+				case token.GTR:
+					if pk+1 > dlo {
+						dlo = pk + 1
+					}
+				case token.LEQ:
+					if pk < dhi {
+						dhi = pk
+					}
+				case token.LSS:
+					if pk-1 < dhi {
+						dhi = pk - 1
+					}
+				}
+			}
+			var tlo, thi int64 // values for which the condition is true
+			switch bo.Op {
+			case token.GEQ:
+				tlo, thi = k, top
+			case token.GTR:
+				tlo, thi = k+1, top
+			case token.LEQ:
+				tlo, thi = 0, k
+			case token.LSS:
+				tlo, thi = 0, k-1
+			default:
+				continue
+			}
+			// which edge is an error arm (records an error in the successor block itself)
+			for side, su := range b.Succs {
+				errArm := false
+				for _, ins := range su.Instrs {
+					if recordsError(ins) {
+						errArm = true
+					}
+				}
+				if !errArm {
+					continue
+				}
+				lo, hi := tlo, thi
+				if side == 1 { // the condition is false on this edge
+					if tlo == 0 {
+						lo, hi = thi+1, top
+					} else {
+						lo, hi = 0, tlo-1
+					}
+				}
+				if lo < dlo {
+					lo = dlo
+				}
+				if hi > dhi {
+					hi = dhi
+				}
+				v, hit := validHit(lo, hi)
+				c.Sites++
+				c.Check(!hit, rule, FuncName(f)+":escape[unicode].range", iff.Cond.Pos(), "only invalid code points are rejected",
+					fmt.Sprintf("a range check of the \\u / \\U code point sends U+%04X, a valid code point, to the error arm: a string containing it is generated by the writer but rejected by the reader", v))
+			}
+		}
+	}
 	c.Check(encoded > 0, rule, FuncName(fn)+":escape[unicode].encoded", fn.Pos(), "the code point is UTF-8 encoded",
 		"the parsed code point never reaches utf8.EncodeRune/AppendRune or a rune→string conversion")
 }
